@@ -14,6 +14,9 @@ use std::sync::{Arc, Mutex};
 
 pub struct FailAt {
     pub faults: Vec<(u64, Action)>,
+    /// the call kind each fault was planned for (from the fault-free trace); after an earlier fault the
+    /// execution may diverge, and a failure meant for an open must not be injected into, say, a close
+    pub kinds: Vec<Option<Kind>>,
     pub n: AtomicU64,
     pub hit: Mutex<Vec<Ev>>,
 }
@@ -21,8 +24,13 @@ pub struct FailAt {
 impl Controller for FailAt {
     fn before(&self, ev: &Ev) -> Action {
         let i = self.n.fetch_add(1, SeqCst);
-        for (k, a) in &self.faults {
+        for (j, (k, a)) in self.faults.iter().enumerate() {
             if *k == i {
+                if let Some(Some(kind)) = self.kinds.get(j) {
+                    if *kind != ev.kind {
+                        return Action::Proceed;
+                    }
+                }
                 self.hit.lock().unwrap().push(ev.clone());
                 return *a;
             }
@@ -92,12 +100,13 @@ fn action_from(v: &Value) -> Action {
     }
 }
 
-pub fn fault_run(scn: &Scn, faults: &[(u64, Action)], rep: &mut Report) -> Vec<(String, String)> {
+pub fn fault_run(scn: &Scn, faults: &[(u64, Action)], planned: &[Ev], rep: &mut Report) -> Vec<(String, String)> {
     let w = scn::setup(scn);
     let before = w.snapshot();
     let cache = w.cache();
     let force = w.force_maintenance;
-    let ctl = Arc::new(FailAt { faults: faults.to_vec(), n: AtomicU64::new(0), hit: Mutex::new(vec![]) });
+    let kinds: Vec<Option<Kind>> = faults.iter().map(|(k, _)| planned.get(*k as usize).map(|e| e.kind)).collect();
+    let ctl = Arc::new(FailAt { faults: faults.to_vec(), kinds, n: AtomicU64::new(0), hit: Mutex::new(vec![]) });
     shim::set_controller(Some(ctl.clone()));
     let (r, trace) = run::as_participant(0, 0, || {
         if force {
@@ -208,7 +217,7 @@ fn record(scn: &Scn, faults: &[(u64, Action)], trace: &[Ev], rep: &mut Report) {
     rep.traces += 1;
     rep.nontrivial.insert(crate::world::fnv(case_json(scn, faults).to_string().as_bytes()));
     let at: Vec<String> = faults.iter().map(|(k, a)| format!("{}@{}:{:?}", trace.get(*k as usize).map(|e| e.func).unwrap_or("?"), k, a)).collect();
-    for (sig, msg) in fault_run(scn, faults, rep) {
+    for (sig, msg) in fault_run(scn, faults, trace, rep) {
         rep.violation(
             format!("faults:{}", sig),
             format!("{} with {}: {}", scn.to_json(), at.join("+"), msg),
